@@ -15,7 +15,9 @@ import Verif.Model.Renew
       pd= xd= pi= xi= pe= xe= pu= xu= crl= pol= key= nkey= nb= na= bd= exts= gen= aki= nski=
       lists joined by ',' (`-` when empty); byte strings `x<hex>`; OIDs dotted; `exts`/`gen`
       entries `oid/crit/x<hex>`; `nkey=!` on renew.
-      output: issued key= subj= dur= exts= fdiff=   | signerr | refuse:<reason> | crash
+      output: issued key= subj= dur= exts= fdiff= keep=ok|bad serial=new sig=ok win=ok | signerr | refuse:<reason> | crash
+  fidspec op=renew|rekey hasski=0|1   output: fdiff=- (renew) | fdiff=ski (rekey): what the property allows to differ
+  unissued …   (the template was not issuable; nothing to renew)  output: not-issued
 -/
 open Verif Verif.Renew
 
@@ -178,7 +180,10 @@ def fidelity (isRekey : Bool) (kv : List (String × String)) : Option String := 
   | .val (.refused r) => pure s!"refuse:{reasonS r}"
   | .val (.signError _) => pure "signerr"
   | .val (.issued c) =>
-    pure s!"issued key=x{hex c.publicKey} subj=x{hex c.f.rawSubject} dur={c.notAfter - c.notBefore} exts={listS (c.extensions.map extS)} fdiff={listS (fdiff old c)}"
+    -- the property's list clause evaluated on the predicted certificate
+    let strip := fun (es : List Ext) => dropOid oidAKI (if isRekey then dropOid oidSKI es else es)
+    let keep := if strip c.extensions == strip old.extensions then "ok" else "bad"
+    pure s!"issued key=x{hex c.publicKey} subj=x{hex c.f.rawSubject} dur={c.notAfter - c.notBefore} exts={listS (c.extensions.map extS)} fdiff={listS (fdiff old c)} keep={keep} serial=new sig=ok win=ok"
 
 def eval (line : String) : Option String :=
   match fields line with
@@ -192,6 +197,13 @@ def eval (line : String) : Option String :=
     | "gate" => gate kv
     | "renew" => fidelity false kv
     | "rekey" => fidelity true kv
+    | "unissued" => some "not-issued"
+    | "fidspec" =>
+      -- the property itself: parsed field groups that may differ between old and new certificate
+      match lookup kv "op" with
+      | some "renew" => some "fdiff=-"
+      | some "rekey" => some "fdiff=ski"
+      | _ => none
     | _ => none
 
 end C09
